@@ -27,6 +27,9 @@ export const STATEMENTS = {
   mergeProps: (N) => `export const ${N} = () => <div {...g2} class="k" class={g0} />;`,
   vslotsFn: (N) => `export const ${N} = () => <A0 v-slots={{ x: () => [g0] }}>{() => [f0()]}</A0>;`,
   textAndPragmaLike: (N) => `export const ${N} = () => <div>  a  {g0} b </div>;`,
+  reassignParamInner: (N, inner = '') => `export function ${N}(cell = "prev") {\n  ${inner.before ?? ''}\n  cell = <A0>{cell}</A0>;\n  ${inner.after ?? ''}\n  return cell;\n}`,
+  slotTempInner: (N, inner = '') => `export function ${N}() {\n  ${inner.before ?? ''}\n  const r = <A0>{f0()}</A0>;\n  ${inner.after ?? ''}\n  return r;\n}`,
+  identLetInner: (N, inner = '') => `export function ${N}() {\n  let a = "A";\n  ${inner.before ?? ''}\n  const r = <A0>{a}</A0>;\n  ${inner.after ?? ''}\n  return r;\n}`,
 };
 
 export const DISTRACTORS = {
@@ -34,6 +37,10 @@ export const DISTRACTORS = {
   assignSameNameOtherScope: (k) => `function d${k}a() { let a = 1; a = 2; return a; }`,
   assignSameNameArrow: (k) => `const d${k}b = (a) => { a = 3; return a; };`,
   assignOther: (k) => `let d${k}z = 0;\nd${k}z = 5;`,
+  assignJsxSameNameOtherScope: (k) => `function d${k}s() { let a; a = <div>x</div>; return a; }`,
+  assignParenJsxSameNameOtherScope: (k) => `function d${k}t() { let a; a = (\n    <div>hello</div>\n  ); return a; }`,
+  assignCompJsxSameNameOtherScope: (k) => `function d${k}u(a, kid) { a = <B9>two{g8}</B9>; kid = (<B9><i/><i/></B9>); return [a, kid]; }`,
+  assignJsxToStatementNames: (k) => `function d${k}v() { let s0_a, s1_a, s0_kid, s1_kid, s0_x, s1_x; s0_a = (<p/>); s1_a = <p/>; s0_kid = (<p>k</p>); s1_kid = <p/>; s0_x = <p/>; s1_x = (<p/>); return [s0_a, s1_a, s0_kid, s1_kid, s0_x, s1_x]; }`,
   fnAndArrow: (k) => `function d${k}c() { return 1; }\nconst d${k}d = () => 2;`,
   otherJsxTemp: (k) => `const d${k}e = <B9>{g9()}</B9>;`,
   fnWithJsxTemp: (k) => `function d${k}f() { return <B9>{g9()}</B9>; }`,
@@ -51,6 +58,14 @@ export const DISTRACTORS = {
   directiveOther: (k) => `const d${k}r = <div v-bar={g8} />;`,
   blockAndLoop: (k) => `{ let q${k} = 0; for (let i = 0; i < 2; i++) { q${k} += i; } }`,
 };
+
+// distractors placed inside the statement's own function body (same statement list as the JSX)
+export const INNER = [
+  (k) => `const i${k}a = (n) => n * 2;`, (k) => `const i${k}b = (n) => (m) => n * m;`, (k) => `function i${k}c() { return 1; }`, (k) => `{ let i${k}d = 1; i${k}d++; }`,
+  (k) => `if (typeof g8 !== "undefined") { Math.max(1, 2); }`, (k) => `for (let i = 0; i < 1; i++) { Math.min(i, 1); }`, (k) => `try { Math.abs(1); } catch (e) { Math.abs(2); }`,
+  (k) => `const i${k}e = () => <B9>{g9()}</B9>;`, (k) => `const i${k}f = { m() { return 1; } };`, (k) => `class I${k}g { f = 1; m() { return 2; } }`, (k) => `switch (1) { case 1: { break; } default: { break; } }`,
+  (k) => `let i${k}h = 0; i${k}h = i${k}h + 1;`, (k) => `const i${k}j = function () { return () => 3; };`, (k) => `lbl${k}: { break lbl${k}; }`,
+];
 
 const ENV = {
   globals: {
@@ -71,8 +86,9 @@ export function* generate({ tier, seed }) {
   const stmts = Object.keys(STATEMENTS), ds = Object.keys(DISTRACTORS);
   const emit = (names, pre, suf, opts) => {
     // names: list of statement families (1 or 2); alone module = the statements only
-    const srcs = names.map((s, i) => STATEMENTS[s](`s${i}`));
-    const alone = names.map((s, i) => compose([srcs[i]]));
+    const innerOf = (i) => ({ before: rng.bool(0.5) ? rng.pick(INNER)(`b${i}`) : '', after: rng.pick(INNER)(`a${i}`) });
+    const srcs = names.map((s, i) => STATEMENTS[s](`s${i}`, innerOf(i)));
+    const alone = names.map((s, i) => compose([STATEMENTS[s](`s${i}`, {})]));
     const composed = compose([...pre.map((d, i) => DISTRACTORS[d](`p${i}`)), ...srcs.flatMap((s, i) => (i === 0 ? [s] : [DISTRACTORS[suf[0] ?? 'none'](`m${i}`), s])), ...suf.map((d, i) => DISTRACTORS[d](`q${i}`))]);
     const variants = [{ vid: 'composed', src: composed, options: opts }];
     names.forEach((s, i) => variants.push({ vid: `alone${i}`, src: alone[i], options: opts }));
@@ -87,6 +103,10 @@ export function* generate({ tier, seed }) {
     yield emit([s], [p], [q], tier === 'quick' ? OPTS[rng.int(OPTS.length)] : OPTS[(n) % OPTS.length]);
     if (tier !== 'quick') yield emit([s], [p], [q], OPTS[(n + 1) % OPTS.length]);
   }
+  // the *Inner families draw their in-list distractors at random: repeat them
+  const innerFamilies = stmts.filter((x) => x.endsWith('Inner'));
+  const nInner = tier === 'quick' ? 40 : 400;
+  for (const s of innerFamilies) for (let k = 0; k < nInner; k++) yield emit([s], [rng.pick(ds)], [rng.pick(ds)], rng.pick(OPTS));
   // random pairs of statements with several distractors
   const nPairs = tier === 'quick' ? 1500 : 20000;
   for (let i = 0; i < nPairs; i++) {
@@ -125,7 +145,7 @@ export async function check(group, records) {
     if ((comp.n_err > 0) !== (alone.n_err > 0)) { out.push(violated({ ...base, oracle: 'same diagnostics', sig: `C10/diagnostics-differ/${spec.names[i]}`, detail: { composed: comp.diags, alone: alone.diags } })); continue; }
     // hook: the remembered assignment target may only be consumed by the reassign family
     const takes = ((comp.hooks || {}).events || []).filter((e) => /^iife_take left=(?!-)/.test(e));
-    if (takes.length && !spec.names.includes('reassign') && !/reassignElsewhere/.test(group.feature)) {
+    if (takes.length && !spec.names.some((x) => x.startsWith('reassign')) && !/reassignElsewhere/.test(group.feature)) {
       out.push(violated({ ...base, oracle: 'remembered assignment target consumed only by its own JSX (hook)', sig: `C10/hook/stale-assignment-target/${spec.names[i]}`, detail: takes })); continue;
     }
     const va = await valueOf(alone, spec, `s${i}`);
